@@ -12,20 +12,22 @@ import DdsProofs.Lru
 namespace Dds.C12
 open Dds
 
-theorem transparent {σ : Type} (abs : σ → Dict) (istep : σ → StoreOp → σ × Out)
-    (href : Refines abs istep) (cap : Nat) (i₀ : σ) (ops : List StoreOp) :
-    (runOps (Lru.step cap istep) { cache := [], inner := i₀ } ops).2 = (runOps Dict.step (abs i₀) ops).2 :=
-  (lru_run abs istep href cap ops { cache := [], inner := i₀ } (by intro kv h; cases h)).1
+theorem transparent {σ : Type} (R : σ → Dict → Prop) (ok : StoreOp → Prop) (istep : σ → StoreOp → σ × Out)
+    (hsim : Sim R ok istep) (hokhas : ∀ k, ok (.fetch k) → ok (.has k)) (cap : Nat) (i₀ : σ) (d₀ : Dict) (h₀ : R i₀ d₀)
+    (ops : List StoreOp) (hops : ∀ op ∈ ops, ok op) :
+    (runOps (Lru.step cap istep) { cache := [], inner := i₀ } ops).2 = (runOps Dict.step d₀ ops).2 :=
+  (lru_run R ok istep hsim hokhas cap ops { cache := [], inner := i₀ } d₀ hops ⟨h₀, by intro kv h; cases h⟩).1
 
 theorem transparent_memory (cap : Nat) (d₀ : Dict) (ops : List StoreOp) :
     (runOps (Lru.step cap Dict.step) { cache := [], inner := d₀ } ops).2 = (runOps Dict.step d₀ ops).2 :=
-  transparent id Dict.step (fun _ _ => ⟨rfl, rfl⟩) cap d₀ ops
+  transparent (fun s d => s = d) (fun _ => True) Dict.step
+    (fun s d op _ h => by subst h; exact ⟨rfl, rfl⟩) (fun _ _ => trivial) cap d₀ d₀ rfl ops (fun _ _ => trivial)
 
-/-- the wrapper is itself a store that refines the dictionary: wrappers compose -/
-theorem wrapper_refines_final {σ : Type} (abs : σ → Dict) (istep : σ → StoreOp → σ × Out)
-    (href : Refines abs istep) (cap : Nat) (i₀ : σ) (ops : List StoreOp) :
-    abs (runOps (Lru.step cap istep) { cache := [], inner := i₀ } ops).1.inner = (runOps Dict.step (abs i₀) ops).1 :=
-  (lru_run abs istep href cap ops { cache := [], inner := i₀ } (by intro kv h; cases h)).2.1
+/-- the wrapper is itself a store that simulates the dictionary: wrappers compose with store refinements -/
+theorem wrapper_simulates {σ : Type} (R : σ → Dict → Prop) (ok : StoreOp → Prop) (istep : σ → StoreOp → σ × Out)
+    (hsim : Sim R ok istep) (hokhas : ∀ k, ok (.fetch k) → ok (.has k)) (cap : Nat) :
+    Sim (LruRel R) ok (Lru.step cap istep) :=
+  fun s d op hop hrel => lru_step R ok istep hsim hokhas cap s d op hop hrel
 
 theorem bounded {σ : Type} (istep : σ → StoreOp → σ × Out) (cap : Nat) :
     ∀ (ops : List StoreOp) (s : Lru σ), s.cache.length ≤ cap →
